@@ -359,6 +359,78 @@ def _canonicalise_attr_loops(tree):
                     continue
             out.append(st)
         return out
+    def str_tuple(e):
+        return isinstance(e, (ast.Tuple, ast.List)) and 0 < len(e.elts) <= 32 and all(isinstance(x, ast.Constant) and isinstance(x.value, str) and x.value.isidentifier() for x in e.elts)
+
+    def local_name_tuples(fn):
+        """a local bound once to a tuple of identifier strings and only iterated over stands for that tuple"""
+        binds, stores = {}, {}
+        for n in ast.walk(fn):
+            if isinstance(n, ast.Assign) and len(n.targets) == 1 and isinstance(n.targets[0], ast.Name) and str_tuple(n.value):
+                binds[n.targets[0].id] = n.value
+            if isinstance(n, ast.Name) and isinstance(n.ctx, (ast.Store, ast.Del)):
+                stores[n.id] = stores.get(n.id, 0) + 1
+        binds = {k: v for k, v in binds.items() if stores.get(k, 0) == 1}
+        if not binds:
+            return
+        for n in ast.walk(fn):
+            if isinstance(n, ast.For) and isinstance(n.iter, ast.Name) and n.iter.id in binds:
+                n.iter = copy.deepcopy(binds[n.iter.id])
+            elif isinstance(n, (ast.DictComp, ast.ListComp, ast.GeneratorExp, ast.SetComp)):
+                for g in n.generators:
+                    if isinstance(g.iter, ast.Name) and g.iter.id in binds:
+                        g.iter = copy.deepcopy(binds[g.iter.id])
+
+    class ExpandDictComp(ast.NodeTransformer):
+        """{name: f(getattr(o, name)) for name in ("a", "b")} -> {"a": f(getattr(o, "a")), "b": ...};  g(**{"a": x, "b": y}) -> g(a=x, b=y)"""
+
+        def visit_DictComp(self, n):
+            nonlocal count
+            self.generic_visit(n)
+            if len(n.generators) == 1 and not n.generators[0].ifs and isinstance(n.generators[0].target, ast.Name) and str_tuple(n.generators[0].iter) \
+                    and isinstance(n.key, ast.Name) and n.key.id == n.generators[0].target.id:
+                v = n.generators[0].target.id
+                keys, vals = [], []
+                for e in n.generators[0].iter.elts:
+                    val = copy.deepcopy(n.value)
+                    for x in ast.walk(val):
+                        for fld, child in ast.iter_fields(x):
+                            if isinstance(child, list):
+                                for i_, c_ in enumerate(child):
+                                    if isinstance(c_, ast.Name) and c_.id == v and isinstance(c_.ctx, ast.Load):
+                                        child[i_] = ast.Constant(value=e.value)
+                            elif isinstance(child, ast.Name) and child.id == v and isinstance(child.ctx, ast.Load):
+                                setattr(x, fld, ast.Constant(value=e.value))
+                    if isinstance(val, ast.Name) and val.id == v:
+                        val = ast.Constant(value=e.value)
+                    keys.append(ast.Constant(value=e.value))
+                    vals.append(val)
+                count += 1
+                return ast.copy_location(ast.Dict(keys=keys, values=vals), n)
+            return n
+
+        def visit_Call(self, c):
+            nonlocal count
+            self.generic_visit(c)
+            newkw = []
+            changed = False
+            for k in c.keywords:
+                if k.arg is None and isinstance(k.value, ast.Dict) and k.value.keys and all(isinstance(x, ast.Constant) and isinstance(x.value, str) and x.value.isidentifier()
+                                                                                           for x in k.value.keys):
+                    for kk, vv in zip(k.value.keys, k.value.values):
+                        newkw.append(ast.keyword(arg=kk.value, value=vv))
+                    changed = True
+                else:
+                    newkw.append(k)
+            if changed and len({k.arg for k in newkw if k.arg}) == len([k for k in newkw if k.arg]):
+                c.keywords = newkw
+                count += 1
+            return c
+
+    for fn in ast.walk(tree):
+        if isinstance(fn, (ast.FunctionDef, ast.AsyncFunctionDef)):
+            local_name_tuples(fn)
+    ExpandDictComp().visit(tree)
     for fn in ast.walk(tree):
         if isinstance(fn, (ast.FunctionDef, ast.AsyncFunctionDef)):
             fn.body = unroll(fn.body)
@@ -1052,6 +1124,10 @@ class Program:
                 pass        # the result already lives in the target
             elif kind == "assign":
                 out.append(ast.Assign(targets=target_stmt.targets, value=retval if retval is not None else ast.Constant(value=None)))
+            elif kind == "aug":
+                if retval is None:
+                    return None
+                out.append(ast.AugAssign(target=target_stmt.target, op=target_stmt.op, value=retval))
             elif kind == "return":
                 out.append(ast.Return(value=retval))
             elif retval is not None and not isinstance(retval, (ast.Name, ast.Constant)):
@@ -1078,6 +1154,9 @@ class Program:
                     rep_ = expand(m, cls, g, st.value, "return", st)
                 elif isinstance(st, ast.Expr) and isinstance(st.value, ast.Call):
                     rep_ = expand(m, cls, g, st.value, "expr", st)
+                elif isinstance(st, ast.AugAssign) and isinstance(st.value, ast.Call) and isinstance(st.target, ast.Name):
+                    # x op= h(..)  ->  body ; x op= <result>   (the helper cannot rebind the caller's local x)
+                    rep_ = expand(m, cls, g, st.value, "aug", st)
                 if rep_ is not None:
                     out.extend(rep_)
                 else:
